@@ -10,6 +10,7 @@ is tied to the code by the differential run only (DESIGN §5 C11).
 -/
 import DtailModel.Lemmas.QueryPatch
 import DtailModel.Lemmas.GenQuery
+set_option autoImplicit false
 namespace Dtail.C11
 open Dtail
 
